@@ -16,7 +16,8 @@ def handlers : List (String × (Json → Except String Json)) := [
   ("cfgparse", SqlLineage.IO.Config.handleParse),
   ("cfgtable", SqlLineage.IO.Config.handleTable),
   ("provhist", SqlLineage.IO.Provider.handleHist),
-  ("provthreads", SqlLineage.IO.Provider.handleThreads)
+  ("provthreads", SqlLineage.IO.Provider.handleThreads),
+  ("provsched", SqlLineage.IO.Provider.handleSched)
 ]
 
 def handleLine (line : String) : String :=
